@@ -16,6 +16,7 @@ from ..core import (
     data_deps,
     place_fields,
     self_fields_read,
+    switch_sites,
 )
 from ..flow import conditions, consumers, on_some_arm, on_none_arm
 from ..census import field_uses, find_fields
@@ -557,3 +558,49 @@ def rule_iterators_filter(ctx):
                     ok = True  # `iter().flatten()` over Option slots yields the Some entries only
             r.check(ok, b.id, "no-filter", "%s filters tombstones" % b.path, "%s iterates the %s vector without skipping removed entries" % (b.path, key), b.loc())
     r.floor(n, 4, "iterator functions over the label / attack vectors")
+
+
+# ------------------------------------------------------------------------------------------
+# counts and the largest id (found by seeded changes C12/E and C12/G)
+
+
+def rule_counts(ctx):
+    prog = ctx.prog
+    r = ctx.rule(
+        "count-functions",
+        "LabelSet::max_id depends on the label vector alone (its emptiness / length count the whole history, removed labels included), "
+        "never on the live count; AAFramework::n_arguments is the live count of its ArgumentSet (`argument_set().len()`), "
+        "ArgumentSet::len delegates to LabelSet::len, AAFramework::max_argument_id to the label set's max_id",
+    )
+    fields = find_store_fields(prog)
+    if not r.require_anchor(fields["labels"], "label vector field"):
+        return
+    owner, fld, _ = fields["labels"]
+    mx = prog.lib(owner + "::<T>::max_id")
+    if r.require_anchor(mx, owner + "::max_id"):
+        bad = []
+        ops = [{"l": 0, "p": []}]
+        for sw in switch_sites(mx):
+            ops.append(sw.node["discr"])
+        for op in ops:
+            seen, calls, _ = data_deps(mx, op)
+            fr = self_fields_read(mx, op)
+            if fr - {fld}:
+                bad.append("reads %s" % sorted(fr - {fld}))
+            for c in calls:
+                cc = callee_of(c)
+                t = prog.body_for_callee(cc, mx) if cc else None
+                if t is not None and t.impl and t.impl.get("self_adt") == owner:
+                    bad.append("calls %s" % t.path.rsplit("::", 1)[-1])
+        r.check(not bad, mx.id, "max-id-source:%s" % sorted(set(bad)), "max_id is computed from the label vector only", "max_id depends on more than the label vector (%s): after removals the largest id handed out is no longer reported" % sorted(set(bad)), mx.loc())
+    def delegates(path, want_re, what):
+        b = prog.lib(path)
+        if not r.require_anchor(b, path):
+            return
+        os_ = [o for o in origins(b, {"l": 0, "p": []}, transparent=())]
+        ok = bool(os_) and all(o.kind == "call" and callee_matches(o.data, want_re) for o in os_)
+        r.check(ok, b.id, "not-delegating", "%s = %s" % (path.rsplit("::", 1)[-1], what), "%s is not `%s`: the reported count / id no longer follows the store" % (path.rsplit("::", 1)[-1], what), b.loc())
+    delegates(AAF + "::<T>::n_arguments", r"^aa::arguments::ArgumentSet::len$", "argument_set().len()")
+    delegates(ARGSET + "::<T>::len", r"^utils::label::LabelSet::len$", "LabelSet::len()")
+    delegates(AAF + "::<T>::max_argument_id", r"^aa::arguments::ArgumentSet::max_id$|^utils::label::LabelSet::max_id$", "the label set's max_id()")
+    delegates(ARGSET + "::<T>::max_id", r"^utils::label::LabelSet::max_id$", "LabelSet::max_id()")
